@@ -6,7 +6,10 @@ import (
 	"fmt"
 	"net"
 	"os"
+	"strings"
 	"time"
+
+	"qedverif/cq"
 
 	"github.com/bbva/qed/consensus"
 	"github.com/bbva/qed/crypto/hashing"
@@ -141,9 +144,17 @@ func startNode(o nodeOpts) (*consensus.RaftNode, chan *protocol.Snapshot, error)
 	}
 	n, err := consensus.NewRaftNode(opts, st, ch, nil)
 	if err != nil {
+		// e.g. the raft port was taken by another process in the meantime: do not keep the store (and its LOCK file) open
+		cq.Catch(func() { st.Close() })
 		return nil, nil, err
 	}
 	return n, ch, nil
+}
+
+// portTaken: the error of a node start that failed because another process took the TCP port in the meantime - an
+// accident of the machine, not a behaviour of QED (the scenario is skipped and counted, never reported)
+func portTaken(err error) bool {
+	return err != nil && (strings.Contains(err.Error(), "address already in use") || strings.Contains(err.Error(), "bind:"))
 }
 
 func waitLeader(n *consensus.RaftNode) bool {
